@@ -111,9 +111,8 @@ Restart ==
 
 Next ==
     \/ \E c \in Coll, n \in Name, b \in Body :
-         \E im \in Conds(c, n), inm \in Conds(c, n) :
-            /\ ~(im.present /\ inm.present)
-            /\ Put(c, n, b, im, inm)
+         \E im \in Conds(c, n), inm \in Conds(c, n) :     \* also both headers on one request
+            Put(c, n, b, im, inm)
     \/ \E c \in Coll, n \in Name, b \in Body : Post(c, n, b)
     \/ \E c \in Coll, n \in Name : \E im \in Conds(c, n) : Delete(c, n, im)
     \/ \E c \in Coll, k \in Kinds : Mk(c, k)
